@@ -42,6 +42,24 @@ fn main() {
                 emit_fw(&mut w, &c, &mut cp);
             }
         }
+        "fw-exh" => {
+            // bounded-exhaustive family: --depth D, cases = number of indices from --start (stride --stride)
+            let depth: u32 = arg_val(&args, "--depth").and_then(|s| s.parse().ok()).unwrap_or(2);
+            let start: u64 = arg_val(&args, "--start").and_then(|s| s.parse().ok()).unwrap_or(0);
+            let stride: u64 = arg_val(&args, "--stride").and_then(|s| s.parse().ok()).unwrap_or(1);
+            let size = fwgen::exh_size(depth);
+            let mut p = util::Prng::new(seed);
+            let mut i = start;
+            let mut n = 0;
+            while i < size && n < cases {
+                if let Some(c) = fwgen::gen_exh(i, depth, format!("exh{}-{}", depth, i)) {
+                    emit_fw(&mut w, &c, &mut p);
+                }
+                i += stride;
+                n += 1;
+            }
+            eprintln!("exh depth={} size={} emitted={}", depth, size, n);
+        }
         "fw-replay" => {
             let mut text = String::new();
             let _ = std::io::Read::read_to_string(&mut std::io::stdin(), &mut text);
